@@ -82,6 +82,11 @@ pub fn diff_array_with(got: &Array, dims: &[usize], want: &[f64], mags: &[f64], 
     }
     let exact = exact && mags.iter().all(|m| m.abs() < exact_limit());
     for i in 0..want.len() {
+        // where the reference says its own value is noise (the tolerance dwarfs the value: the result of a
+        // cancellation fed to a function with a pole), a non-finite library value is as good an answer: undecidable
+        if !exact && !(gv[i] as f64).is_finite() && rtol() * (mags[i].abs() + want[i].abs()) + atol > 1e3 * want[i].abs() && mags[i].abs() > 1e3 * want[i].abs() {
+            return Some(UNDECIDABLE.to_string());
+        }
         if !close_with(gv[i] as f64, want[i], mags[i], exact, atol) {
             return Some(format!(
                 "element {} is {:?}, expected {:?} ({}); got {:?} expected {:?}",
